@@ -3,32 +3,33 @@ _COMMON_TB = [
     'axioms: none (Print Assumptions: closed under the global context)',
     'correspondence harness harness/evmexec.go + harness/asm.go (hand-assembled generic script contract, call-tree '
     'encoder, tracer that records which frames failed, reference accounting, metamorphic oracle) + vlib/core.py',
-    'modelled, not verified: go-ethereum interpreter (only CALL/SSTORE/LOG/BALANCE/REVERT of the script contract are used), '
+    'modelled, not verified: go-ethereum interpreter (only CALL/SSTORE/LOG/BALANCE/REVERT/SELFDESTRUCT of the script contract are used), '
     'SDK staking/distribution/authz/bank keepers (their effect on balances, delegations, rewards, withdraw address, grants is '
-    'transcribed in Evm/ExecModel.v and sampled), ICS-20 and bank precompiles are not exercised by this driver, gas is not modelled '
+    'transcribed in Evm/ExecModel.v and sampled), the ICS-20 precompile is exercised with transfer of the bond denomination over one open channel (escrow; transfer grants; no relaying), the bank / werc20 precompiles and redelegate / cancelUnbondingDelegation are not exercised by this driver, gas is not modelled '
     '(gas price 0, ample gas limit)',
 ]
 
 P = {
     'id': 'C02',
-    'design_ref': 'DESIGN.md section 5 (C02/C05/C16), section 6 (K4, K5, K6, K9)',
+    'design_ref': 'DESIGN.md section 5 (C02/C05/C16), section 6 (K4, K5, K6, K9, K15), section 13',
     'drivers': [
         {'name': 'evmexec', 'n': {'quick': 500, 'thorough': 20000}, 'args': {'prop': 'C02'}, 'batch': 5000},
     ],
     'coq_header': 'From HV Require Import Evm.ExecModel.\nFrom Coq Require Import ZArith NArith List.\nImport ListNotations.',
     'lists': {'cases': {'type': 'ecase * list Z * eobs', 'check': 'mismatches', 'shard': 50}},
     'search': {'rounds': 3, 'n': 2000},
-    'rule': 'a case is a random setup (balances, delegations, allocated rewards, withdraw addresses, staking grants of the signer) '
-            'plus one Ethereum transaction: either EOA -> staking/distribution precompile or EOA -> script contract running a '
-            'random call tree (depth <= 3) of SSTORE / LOG / BALANCE / CALL with value / precompile calls / REVERT with catching and '
+    'rule': 'a case is a random setup (balances, delegations, allocated rewards, withdraw addresses, staking and ICS-20 transfer grants of the signer) '
+            'plus one Ethereum transaction: either EOA -> staking/distribution/ICS-20 precompile or EOA -> script contract running a '
+            'random call tree (depth <= 3) of SSTORE / LOG / BALANCE / CALL with value / precompile calls (delegate, undelegate, withdraw, setWithdrawAddress, '
+            'claimRewards, ICS-20 transfer) / SELFDESTRUCT (a fifth of the cases self-destruct-heavy: few contracts called repeatedly) / REVERT with catching and '
             'propagating callers, executed by the real EvmKeeper.ApplyTransaction; non-trivial = the transaction succeeded; '
             'distinct = distinct (setup, program)',
     'trusted_base': _COMMON_TB,
     'assumptions': ['gas price 0, so no fee enters the balance equations', 'one validator, no slashing (tokens = shares)'],
     'level_text': 'Coq theorems about the StateDB/journal/commit model and the precompile mirror discipline: exact supply-delta '
-                  'formula for every program, conservation under the mirror-complete invariant, refutation witnesses for each '
+                  'formula for every program (self-destructed contracts included: exactly their bank balance is burned), conservation for every pure program without SELFDESTRUCT, refutation witnesses for each '
                   'known finding class; the model is compared with the real keeper on generated call trees on every run, and the '
-                  'property itself (supply unchanged; balances = before + received - paid) is evaluated on the real run',
+                  'property itself (supply unchanged apart from the sanctioned burn of self-destructed contracts; balances = before + received - paid) is evaluated on the real run',
     'level_note': 'partial: the theorem is about the model; interpreter, SDK keepers and gas are outside it (see trusted base)',
     'technique': 'Coq proof over a StateDB/precompile model + differential correspondence on generated EVM call trees',
 }
